@@ -1,7 +1,10 @@
 (* Correspondence entry points for C02: the tree (with every loc and every
    decoded literal) the model builds for an accepted text must equal the
-   implementation's tree, by the decidable equality of Lang/AstEq.v. *)
-From PyGql Require Import Run.Driver Lang.Parser.
+   implementation's tree, by the decidable equality of Lang/AstEq.v.
+   Entry ELex is used for the UTF-8 decoding of a bytes source: the decoded
+   text (as a StringValue without loc) must be what bytes.decode gives, and
+   undecodable bytes must be undecodable for the model. *)
+From PyGql Require Import Run.Driver Lang.Parser Lang.Utf8.
 From PyGql Require Export Lang.AstEq Run.C01run.
 
 Inductive obs02 :=
@@ -19,7 +22,8 @@ Definition model_C02 (e : entry) (fl : flags) (src : str) : outcome tree02 :=
   | EDoc => do d <- parse_document fl src; Ok (TDoc d)
   | EValue => do v <- parse_value_str fl src; Ok (TValue v)
   | EType => do t <- parse_type_str fl src; Ok (TType t)
-  | ELex => Crash 0
+  | ELex =>          (* src holds BYTES here: the decoding step of a bytes source (Lang/Utf8.v) *)
+      match decode_utf8 src with Some s => Ok (TValue (VString s false NL)) | None => Crash 0 end
   end.
 
 Definition agree_C02 (c : case_C02) : bool :=
